@@ -223,8 +223,20 @@ fn o_hist(h: &crate::history::Hist<PieceCase>, st: &mut Stats) -> Result<(), Str
     crate::history::judge(h, &text, o_pieces, st)
 }
 
+fn o_session(s: &crate::history::Session<PieceCase>, st: &mut Stats) -> Result<(), String> {
+    crate::history::judge_session(s, o_pieces, st)
+}
+
 pub fn sections() -> Vec<Box<dyn Section>> {
     vec![
+        Box::new(Random {
+            name: "sessions-of-piece-lists".into(),
+            quick: 60,
+            thorough: 2000,
+            strategy: Box::new(|_| crate::history::gsession(gpieces())),
+            oracle: o_session,
+            required: vec!["judged inside a session", "session of 1000 or more cases"],
+        }),
         Box::new(Random {
             name: "piece-lists-after-a-prelude".into(),
             quick: 16_000,
